@@ -33,8 +33,15 @@ RULE = ("random multifurcating trees (3..14 tips, rooted/unrooted, parent slot a
         "subtrees and zero inner root branches / zero cherries; thorough tier adds every labelled shape with 4-5 tips x "
         "every {0,1,2} (4 tips) or {0,1} (5 tips) length pattern with at least half of the branches zero; rooted trees "
         "whose two root branches carry support x support in {absent, 0, 1/64, 1, 5} (root children inner/inner, one in "
-        "five inner/tip) and lengths in {absent, 0, 1, 5/2}, for unroot, midpoint and outgroups (negative supports are "
-        "not generated: outside the quantifier, UnRoot clamps them to 0); "
+        "five inner/tip) and lengths in {absent, 0, 1, 5/2}, for unroot, midpoint and outgroups; "
+        "UnRoot's merge rule for the two root branches (l1,s1),(l2,s2): length absent when both are absent, else "
+        "max(0,l1)+max(0,l2); support absent when a root child is a tip or both are absent, else max(max(0,s1),max(0,s2)) "
+        "(absent counts as 0, a negative value is clamped to 0): negative supports are outside the quantifier (a support "
+        "is a non-negative number) and are exercised for the correspondence only (supports in {-2,-1/2,-1/64,absent,0,1/2}^2 "
+        "on the root branches + one negative inner support; reduced oracle = well-formed, same tips, audit, index); "
+        "the shape of the r5 seed deterministically: (((D:a,E:b):c,(F:0,G:0):0):0,A:0,B:0) hung from each inner node of its "
+        "zero region and from a two-child root on each zero branch x every child order of every node (336 arrangements, "
+        "parent slot random, (a,b,c) cycling over 6 triples; thorough: 12 per arrangement); "
         "a case is non-trivial when the operation changed the structure; distinct = distinct case text")
 TRUSTED = ["tree built through NewNode/NewEdge + verif hooks (exact neighbour order); dump through Neigh()/Edges()/Left()/Right()"]
 ASSUMPTIONS = ["math/rand: Intn/Int31n transcribed in Model/Rand.v; the recorded Int63 stream is what the code under test consumes"]
@@ -285,6 +292,56 @@ def zero_exhaustive():
 
 # (a negative support other than the 'absent' marker is outside the quantifier: UnRoot clamps it to 0 when it merges
 # the two root branches, which the oracle reports as a changed support -- seen with -1/2, not generated)
+SEED_FAMILY_VALUES = [(2, 1, 3), (1, 2, 3), (1, 1, 1), (1, 0, 2), (3, 1, 0), (Fraction(1, 2), Fraction(5, 2), Fraction(1, 4))]
+
+def seed_family(rng, reps):
+    """(((D:a,E:b):c,(F:0,G:0):0):0,A:0,B:0) seen as an unrooted tree, hung from every inner node of its zero-length
+    region (R, M, Q) and from a two-child root put on every zero-length branch, x every order of the children of
+    every node; the parent slot at a random position; a few (a, b, c), `reps` of them per arrangement"""
+    from itertools import permutations, product
+    adj = {"R": ["M", "A", "B"], "M": ["P", "Q", "R"], "P": ["D", "E", "M"], "Q": ["F", "G", "M"]}
+    def mk(node, parent, orders, lens):
+        if node not in adj:
+            return {"name": node, "coms": [], "slots": [None]}
+        ch = [x for x in adj[node] if x != parent]
+        slots = [({"len": lens.get(frozenset((node, x)), Fraction(0)), "sup": None, "pv": None, "coms": []}, mk(x, node, orders, lens))
+                 for x in orders[node]]
+        if parent is not None:
+            slots.insert(rng.randrange(len(slots) + 1), None)
+        return {"name": "", "coms": [], "slots": slots}
+    rootings = [("R", None), ("M", None), ("Q", None)] + [(u, v) for u, v in
+                [("M", "Q"), ("M", "R"), ("Q", "F"), ("Q", "G"), ("R", "A"), ("R", "B")]]
+    k = 0
+    for u, v in rootings:
+        # children lists of every inner node under this rooting
+        def kidsof(node, parent):
+            return [x for x in adj[node] if x != parent]
+        par = {}
+        def walk(node, parent):
+            par[node] = parent
+            for x in adj.get(node, []):
+                if x != parent:
+                    walk(x, node)
+        if v is None:
+            walk(u, None)
+        else:
+            walk(u, v); walk(v, u)
+        inner = [n for n in adj]
+        for combo in product(*[list(permutations(kidsof(n, par[n]))) for n in inner]):
+            orders = dict(zip(inner, combo))
+            for flip in ((False,) if v is None else (False, True)):
+                for _ in range(reps):
+                    a, b, c = SEED_FAMILY_VALUES[k % len(SEED_FAMILY_VALUES)]
+                    k += 1
+                    lens = {frozenset(("P", "D")): Fraction(a), frozenset(("P", "E")): Fraction(b), frozenset(("P", "M")): Fraction(c)}
+                    if v is None:
+                        t = mk(u, None, orders, lens)
+                    else:
+                        e = lambda: {"len": Fraction(0), "sup": None, "pv": None, "coms": []}
+                        two = [(e(), mk(u, v, orders, lens)), (e(), mk(v, u, orders, lens))]
+                        t = {"name": "", "coms": [], "slots": two[::-1] if flip else two}
+                    yield t
+
 ROOT_SUPS = [None, Fraction(0), Fraction(1, 64), Fraction(1), Fraction(5), Fraction(0), None]
 ROOT_LENS = [None, Fraction(0), Fraction(1), Fraction(0), Fraction(5, 2)]
 
@@ -434,6 +491,10 @@ def gen(rng, tier):
         t, style = zero_heavy(rng, g, i)
         out.append({"sx": sx({"op": Sym("midpoint"), "tree": T(t)}),
                     "meta": {"op": "midpoint", "ntips": len(leaves(t)), "rooted": len(t["slots"]) == 2, "lens": style}})
+    # the shape of the r5 seed, deterministically: every rooting inside its zero-length region x every child order
+    for t in seed_family(rng, {"quick": 1, "thorough": 12, "search": 2}[tier]):
+        out.append({"sx": sx({"op": Sym("midpoint"), "tree": T(t)}),
+                    "meta": {"op": "midpoint", "ntips": 6, "rooted": len(t["slots"]) == 2, "lens": "zero-family"}})
     if tier == "thorough":
         for t in zero_exhaustive():
             out.append({"sx": sx({"op": Sym("midpoint"), "tree": T(t)}),
@@ -451,6 +512,27 @@ def gen(rng, tier):
             remove, strict = rng.random() < 0.25, rng.random() < 0.3
             out.append({"sx": sx({"op": Sym("outgroup"), "tree": T(t), "names": list(names), "remove": remove, "strict": strict}),
                         "meta": dict(meta, op="outgroup", og=kind, remove=remove, strict=strict)})
+    # (r5) negative supports (outside the quantifier: a support is a non-negative number; the merge of the two root
+    # branches writes max(max(0,s1),max(0,s2)), so a negative one is not kept): correspondence only (judge_negsup)
+    NEG = [Fraction(-1, 2), Fraction(-2), Fraction(-1, 64), None, Fraction(0), Fraction(1, 2), Fraction(-1, 2)]
+    for i in range({"quick": 49, "thorough": 1000, "search": 100}[tier]):
+        t = root_branch_tree(rng, g, i + 1000)
+        (e1, c1), (e2, c2) = kids(t)
+        s1, s2 = NEG[i % 7], NEG[(i // 7) % 7]
+        if kids(c1): e1["sup"] = s1
+        if kids(c2): e2["sup"] = s2
+        innerb = [e for e, c in all_edges(t) if kids(c) and c["name"] == ""]
+        if not any(e["sup"] is not None and e["sup"] < 0 for e in innerb):
+            rng.choice(innerb)["sup"] = Fraction(-rng.randrange(1, 200), 64)
+        meta = {"ntips": len(leaves(t)), "rooted": True, "lens": "negsup"}
+        out.append({"sx": sx({"op": Sym("unroot"), "tree": T(t)}), "meta": dict(meta, op="unroot")})
+        if all(e["len"] is not None for e, _ in all_edges(t)):
+            out.append({"sx": sx({"op": Sym("midpoint"), "tree": T(t)}), "meta": dict(meta, op="midpoint")})
+        ogs = outgroups(rng, t, tier)
+        kind, names = rng.choice(ogs[:4])
+        remove, strict = rng.random() < 0.25, rng.random() < 0.3
+        out.append({"sx": sx({"op": Sym("outgroup"), "tree": T(t), "names": list(names), "remove": remove, "strict": strict}),
+                    "meta": dict(meta, op="outgroup", og=kind, remove=remove, strict=strict)})
     # every tip subset of small trees, both flags
     m = {"quick": 4, "thorough": 150, "search": 10}[tier]
     for t, style in root_trees(rng, g, m, 5 if tier == "quick" else 6):
